@@ -1437,7 +1437,6 @@ def expr_sel_features(module_node, req, selected_text, new):
         return f
     if end.start_pos > until and end.get_previous_leaf() is not None:
         end = end.get_previous_leaf()
-    f['ends_on_operator'] = end.type == 'operator' and end.parent.type in EXPRESSION_PARTS and end.parent.children[0] is not end
     f['starts_on_keyword_operator'] = start.type == 'keyword' and (
         start.value in ('and', 'or', 'in', 'is') or start.value == 'not' and start.parent.type == 'comp_op')
     node = start
@@ -1445,6 +1444,9 @@ def expr_sel_features(module_node, req, selected_text, new):
         node = start.parent
     while node.parent is not None and node.end_pos < end.end_pos:
         node = node.parent
+    if node.type in EXPRESSION_PARTS:
+        last = [c for c in node.children if c.start_pos < until]
+        f['ends_on_operator'] = bool(last) and last[-1].type == 'operator' and last[-1] is not node.children[0]
     if node.type in EXPRESSION_PARTS and node.type != 'factor':
         sel = [c for c in node.children if c.end_pos > pos and c.start_pos < until and c.type not in ('operator', 'keyword')]
         if sel:
@@ -1726,7 +1728,9 @@ def run_trace_compile_only(src):
 def extract_case(info, script, new, n, text):
     """(x, s, c, c') for is_extraction: the largest modelled expression around the selection, before and after."""
     try:
-        mod = script._module_node
+        import parso
+        # a fresh parse: the tree of a path-less Script is updated in place by the next path-less Script
+        mod = parso.parse(info.src)
         leaf = mod.get_leaf_for_position((n.lineno, n.col_offset), include_prefixes=False)
         if leaf is None:
             return None
